@@ -93,7 +93,13 @@ def handle (req : J) : Except String J := do
     let encE {α} (enc : α → J) : Except PyErr α → J := fun r => match r with
       | .ok a => enc a
       | .error e => Lean.Json.mkObj [("err", .str e.toString)]
-    match pipeline cfg o cmps inputs with
+    let firstPhase ← (match req.getObjVal? "first" with
+      | .ok (.arr xs) => xs.toList.mapM (fun e => do
+          match (← asArr e).toList with
+          | [.str name, .arr samples] => do pure (name, ← samples.toList.mapM decJson)
+          | _ => err "bad input")
+      | _ => pure [])
+    match (if firstPhase.isEmpty then pipeline cfg o cmps inputs else pipelineTwo cfg o cmps firstPhase inputs) with
     | .error e => pure (errJ e)
     | .ok r =>
       -- optional render jobs, run in sequence on the same graph (class names are converted in place)
